@@ -59,7 +59,7 @@ def run(case, bct, REC):
     kind = case['kind']
     W = build_net(case['g'], kind, case['w'], case['ws'], case['selfw'])
     n = len(W)
-    if kind != 'signed' and W.sum() <= 0:
+    if kind not in ('signed', 'dirsigned') and W.sum() <= 0:
         return
     if kind == 'signed' and not (W > 0).any():
         return
@@ -72,6 +72,27 @@ def run(case, bct, REC):
     def rngs():
         return [rngmod.make_rng({'kind': 'spy', 'seed': rsd})] + \
                [rngmod.make_rng({'kind': 'hostile', 'policy': p, 'seed': rsd}) for p in (POL[rsd % len(POL)], POL[(rsd + 3) % len(POL)])]
+    if kind == 'dirsigned':
+        if not (W > 0).any() or not (W < 0).any():
+            return
+        for g in GAMMAS:
+            for B in ('negative_sym', 'negative_asym'):
+                cf = {'gamma': g, 'B': B}
+                last = None
+                for si, st in enumerate(base_starts):
+                    last = modq.execute(REC, bct, 'community_louvain', W, cf, rngs()[si % 3], start=st) or last
+                if last is not None:
+                    refeed(REC, bct, 'community_louvain', W, cf, rsd, last)
+        return
+    if case['w'] == 'tinyneg':      # slightly negative input: only community_louvain documents a tolerance for it
+        for g in GAMMAS:
+            cf = {'gamma': g, 'B': 'modularity'}
+            last = None
+            for si, st in enumerate(base_starts):
+                last = modq.execute(REC, bct, 'community_louvain', W, cf, rngs()[si % 3], start=st) or last
+            if last is not None:
+                refeed(REC, bct, 'community_louvain', W, cf, rsd, last)
+        return
     if kind == 'und':
         lou, fin, cfgs = 'modularity_louvain_und', 'modularity_finetune_und', [{'gamma': g} for g in GAMMAS]
     elif kind == 'dir':
